@@ -324,7 +324,7 @@ def run_shard(acc, shard, nshards, seed, tier):
                     sample=dict(profile=c['profile'], n_trades=len(c['trades']), first_trades=c['trades'][:2], equity=c['equity'][:6]) if len(c['trades']) < 5 else None)
     runner.hyp_search(acc, cases(), chk, 40 if tier == 'quick' else 1500, seed, tier, known=known, shrink_calls=80)
 
-    sess = sessions.session(minutes=(1500, 2300) if tier == 'quick' else (1500, 5800), tfs=('5m', '15m', '1m'), data_tfs=('15m', '1h'), max_data=1,
+    sess = sessions.session(minutes=(1500, 1900) if tier == 'quick' else (1500, 5800), tfs=('5m', '15m', '1m'), data_tfs=('15m', '1h'), max_data=1,
                             warmup=(False,), structural=False, same_tf=False, program=dict(busy=True, resting=True, cycle=True), align_len=True)
 
     def chk_s(spec):
@@ -334,5 +334,5 @@ def run_shard(acc, shard, nshards, seed, tier):
         return dict(key=('s', spec['cfg'], spec['scripts'], {k: v[:3] for k, v in spec['candles'].items()}), nontrivial=nt, classes=cl,
                     violations=vios, sub='multi-day-sessions',
                     sample=dict(cfg=spec['cfg'], routes=spec['routes'], minutes=spec['n'], fast=spec['fast'], daily_balance=r['final']['daily_balance'] if r['final'] else None) if nt else None)
-    runner.hyp_search(acc, sess, chk_s, 3 if tier == 'quick' else 200, seed + 5, tier, known=known, shrink_calls=4 if tier == 'quick' else 40, max_shrink_sigs=1,
+    runner.hyp_search(acc, sess, chk_s, 2 if tier == 'quick' else 200, seed + 5, tier, known=known, shrink_calls=4 if tier == 'quick' else 40, max_shrink_sigs=1,
                       describe=lambda spec: dict(kind='session', spec=spec))
